@@ -136,6 +136,7 @@ def check_richardson(reg, src, R):
                 st.assume(rtol > 0)
                 selfobj = st.new_obj("JacobianWrapper", fields=dict(rhs=UFunc("aff", "opaque"), base_order=base_order, richardson_iter=iters, order=base_order + iters,
                                                                  adaptive=adaptive, flat=False, atol=atol, rtol=rtol))
+                fields0 = dict(st.obj(selfobj).fields)
                 fi = src.func(FU, "JacobianWrapper.__call__")
                 tag = "JacobianWrapper.__call__[base_order=%d,levels=%d,%s]" % (base_order, iters, "adaptive" if adaptive else "fixed")
                 ctx = Ctx(fi, None, fi.cls, tag=tag)
@@ -153,9 +154,10 @@ def check_richardson(reg, src, R):
                     reg.ground(pre + "affine-exact-after-extrapolation#%d" % k, "post", "JacobianWrapper.__call__", isinstance(v, ConcVec) and list(v.items) == list(M.items),
                                backend="poly-exact", detail="every estimate is M => the extrapolated value is M (combination weights sum to one, denominators non-zero); %d estimates used" % len(calls))
                     f = s.obj(selfobj).fields
+                    extra = sorted(set(f) - set(fields0) - {"order"})
                     reg.ground(pre + "wrapper-settings-untouched#%d" % k, "frame", "JacobianWrapper.__call__",
-                               f.get("base_order") == base_order and f.get("richardson_iter") == iters and f.get("adaptive") is adaptive and f.get("rhs") is not None,
-                               backend="symbolic-exec", detail="only `order` (a report of the levels used) may change")
+                               f.get("base_order") == base_order and f.get("richardson_iter") == iters and f.get("adaptive") is adaptive and f.get("rhs") is not None and not extra,
+                               backend="symbolic-exec", detail="only `order` (a report of the levels used) may change; nothing is kept on the wrapper from one evaluation to the next: attributes written %r" % (extra,))
 
 
 def check_estimate_frame(reg, src, R):
